@@ -17,6 +17,10 @@ use std::sync::{Arc, Mutex};
 pub(crate) const ASYNC_FLUSH: &[u8] = b"F";
 #[cfg(feature = "async")]
 pub(crate) const ASYNC_SHUTDOWN: &[u8] = b"S";
+// first byte of every data message to the async file writer thread: whatever the data is,
+// it cannot be taken for one of the control messages above
+#[cfg(feature = "async")]
+pub(crate) const ASYNC_DATA: u8 = b'D';
 
 #[derive(Copy, Clone, Debug)]
 pub(crate) enum ErrorCode {
